@@ -146,7 +146,12 @@ Definition add_step (a : add_acc) (x : addop * eres) : add_acc :=
       let red' := red || rt in
       match get_const et with
       | Some v => (match fst x with OpPlus => int64 (cs + v) | OpMinus => int64 (cs - v) end, terms, ops, red')
-      | None => (cs, et :: terms, (match terms with [] => ops | _ => fst x :: ops end), red')
+      | None =>
+          match terms, fst x with
+          | [], OpMinus => (cs, [et; ENum 0], [OpMinus], red')
+          | [], OpPlus => (cs, [et], ops, red')
+          | _, _ => (cs, et :: terms, fst x :: ops, red')
+          end
       end
   end.
 
